@@ -27,7 +27,7 @@ from pipefunc import PipeFunc, Pipeline
 from pipefunc.typing import Array, ArrayElementType, NoAnnotation, is_type_compatible
 
 PID = "C16"
-PROPS = ["PfModel.Props.C16", "PfModel.Props.C16Pipe", "PfModel.Props.C16Sem"]
+PROPS = ["PfModel.Props.C16", "PfModel.Props.C16Pipe", "PfModel.Props.C16Sem", "PfModel.Props.C16X", "PfModel.Props.C16XSub", "PfModel.Props.C16Inc"]
 DRIVER = "C16"
 RULE = ("annotations are real typing objects built from a JSON grammar (int,bool,float,str,bytes,None,Any,missing,object ndarray, "
         "list/set/tuple/dict[...], Union/Optional, Annotated[T, meta] with class or string metadata, unions spelled Union[...] or X | Y, Array[T], free/bounded/constrained "
@@ -157,6 +157,10 @@ def to_py(j, meta="class"):
         o = Array[to_py(j["arr"], meta)]
     elif "tvb" in j or "tvc" in j:
         o = _tv(j)
+    elif "lit" in j:                                # extended language (harness/c16_x.py): Literal[v, ..], JSON null = None
+        o = typing.Literal[tuple(j["lit"])]
+    elif "vt" in j:                                 # extended language: tuple[T, ...]
+        o = tuple[to_py(j["vt"], meta), ...]
     else:
         raise ValueError(j)
     _PY[k] = o
@@ -280,7 +284,7 @@ COMMON = ["int", "bool", "float", "str", "bytes", "None", "Any", "A", "B"]
 def kind(t):
     if isinstance(t, str):
         return t if t in ("Any", "NoAnn", "T", "ndarray") else "base"
-    return next(iter(k for k in ("g", "u", "an", "arr", "tvb", "tvc") if k in t))
+    return next(iter(k for k in ("g", "u", "an", "arr", "tvb", "tvc", "lit", "vt") if k in t))
 
 
 def depth(t):
@@ -291,9 +295,11 @@ def depth(t):
     for k in ("u", "tvc"):
         if k in t:
             return 1 + max(depth(x) for x in t[k])
-    for k in ("an", "arr", "tvb"):
+    for k in ("an", "arr", "tvb", "vt"):
         if k in t:
             return 1 + depth(t[k])
+    if "lit" in t:
+        return 0
     raise ValueError(t)
 
 
@@ -371,7 +377,7 @@ def subterms(t, path=()):
             if k in t:
                 for i, x in enumerate(t[k]):
                     yield from subterms(x, path + ((k, i),))
-        for k in ("an", "arr"):
+        for k in ("an", "arr", "vt"):
             if k in t:
                 yield from subterms(t[k], path + ((k, None),))
 
@@ -920,8 +926,10 @@ import sys  # noqa: E402
 
 import c16_desc  # noqa: E402
 import c16_exotic  # noqa: E402
+import c16_inc  # noqa: E402
+import c16_x  # noqa: E402
 
-c16_desc.B = c16_exotic.B = sys.modules[__name__]
+c16_desc.B = c16_exotic.B = c16_x.B = c16_inc.B = sys.modules[__name__]
 
 
 def run(ctx):
@@ -929,6 +937,7 @@ def run(ctx):
     check_pairs(ctx, [copy.deepcopy(c) for c in CORPUS])
     check_pipes(ctx, pipe_corpus())
     c16_desc.check_descs(ctx, c16_desc.fix_corpus(c16_desc.corpus()))
+    c16_x.run(ctx)               # extended language: Literal[...] and tuple[T, ...] through the model (typing.compatx)
     c16_exotic.run(ctx)          # spellings, annotations outside the grammar (not modelled: counted), TypeVars over depth-2 generics
     # 1. exhaustive depth <= 1
     u1 = universe1()
@@ -958,6 +967,11 @@ def run(ctx):
     descs = [c16_desc.gen_desc(rng) for _ in range(ctx.n(1000, 16000))]
     for k in range(0, len(descs), 500):
         check_descs_batch(ctx, descs[k:k + 500])
+    # 6. incremental construction: `Pipeline.add` validates after every function (stages, first rejected add, shuffled orders)
+    c16_inc.check_inc(ctx, c16_inc.corpus())
+    incs = [c16_inc.gen_inc(rng) for _ in range(ctx.n(300, 5000))]
+    for k in range(0, len(incs), 1000):
+        c16_inc.check_inc(ctx, incs[k:k + 1000])
 
 
 def check_descs_batch(ctx, cases):
@@ -965,8 +979,12 @@ def check_descs_batch(ctx, cases):
 
 
 def replay(ctx, case):
+    if case.get("kind") == "inc":
+        return c16_inc.replay(ctx, case)
     if case.get("kind") == "desc":
         return c16_desc.replay(ctx, case)
+    if case.get("kind") in ("xpair", "xpipe"):
+        return c16_x.replay(ctx, case)
     if case.get("kind") in ("exotic-pair", "exotic-pipe", "spelling"):
         return c16_exotic.replay(ctx, case)
     if case.get("kind") == "pipe":
